@@ -1,7 +1,7 @@
 (** C19 — Assets trade only while they belong to the universe. *)
 From Coq Require Import ZArith QArith String List.
 From QS Require Import theories.Num theories.Position theories.Portfolio theories.Fees theories.Sizer theories.PCM
-  proofs.SizerProofs proofs.PcmProofs.
+  theories.Backtest proofs.SizerProofs proofs.PcmProofs proofs.SessionSignals.
 Import ListNotations.
 Open Scope Z_scope.
 
@@ -37,6 +37,19 @@ Theorem equal_weight_optimiser : forall scale w,
   (qsum (map snd (opt_equal scale w)) == scale)%Q.
 Proof. exact equal_weight_def. Qed.
 Print Assumptions equal_weight_optimiser.
+
+(** At a rebalance with the universe-driven alpha model: every universe member (entry <= t) gets
+    the signal weight in the allocation row; an asset that is NOT a member appears in the row only if
+    it is already held, and then with weight zero (so it can only be sold) - hence an asset cannot
+    receive a positive target, an order or a first position before its entry. *)
+Theorem members_get_the_signal_non_members_nothing :
+  forall cfg g t s held a,
+    c_alpha cfg = ASingle s ->
+    let fw := merge_weights (map (fun x => (x, 0%Q)) (full_assets held (universe_assets (c_univ cfg) t))) (alpha_eval cfg g t) in
+    (In a (universe_assets (c_univ cfg) t) -> w_find a fw = Some s) /\
+    (~ In a (universe_assets (c_univ cfg) t) -> In a (map fst fw) -> In a held /\ w_find a fw = Some 0%Q).
+Proof. exact single_signal_allocation. Qed.
+Print Assumptions members_get_the_signal_non_members_nothing.
 
 (** Non-vacuity *)
 Example universe_nonvacuous :
